@@ -328,14 +328,79 @@ package cms
 //@   safety all
 
 //@ func (sd *SignedData) Verify
-//@   props C01 C12
+//@   props C01 C12 C20
 //@   requires sd != nil && trustedCerts != nil
 //@   ensures err != nil ==> certChain == nil
 //@   defines err == nil ==> sdVerified(ref(sd), ref(trustedCerts))
 //@   assigns nothing
-//@   trustedframe
 //@   safety all
+// a configuration of its own for every verification (the reference time is written during the verification)
 //@ func NewDefaultCMSConfig
-//@   trusted
+//@   props C20 C01
 //@   ensures result != nil && fresh(result) && result.Hasher != nil && result.Parser != nil && result.CurveLookup != nil && result.ReferenceTime == nil
 //@   assigns nothing
+//@   safety all
+
+// ---------------------------------------------------------------- C20: a trust store shared by concurrent readers / verifiers
+// Lookups are read-only and return copies: nothing that existed before the call is written (assigns nothing), and the
+// result is a slice allocated in the call. The ASN.1 helpers they use (extension / name decoding, outside the modelled
+// subset) are assumed to be read-only as well.
+//@ func (certPool *GenericCertPool) All
+//@   props C20
+//@   requires certPool != nil
+//@   ensures "result-is-a-copy": result == nil || fresh(result)
+//@   ensures len(result) == len(certPool.certificates)
+//@   assigns nothing
+//@   safety all
+
+// ASN.1 helpers of the lookups (decode an extension / a name on every call; encoding/asn1 is outside the modelled subset):
+// read-only, result allocated in the call. Trusted.
+//@ func (extensions Extensions) SubjectKeyIdentifier
+//@   trusted
+//@   ensures result1 != nil ==> result0 == nil
+//@   ensures fresh(result0)
+//@   assigns nothing
+//@ func ParseRDNSequence
+//@   trusted
+//@   ensures (result0 != nil) == (result1 == nil)
+//@   ensures fresh(result0)
+//@   assigns nothing
+//@ func (rdns RDNSequence) ByOID
+//@   trusted
+//@   ensures fresh(result)
+//@   assigns nothing
+
+//@ func (certPool *GenericCertPool) BySKI
+//@   props C20
+//@   requires certPool != nil
+//@   ensures "result-is-a-copy": result == nil || fresh(result)
+//@   loop 1 invariant matchingCerts == nil || fresh(matchingCerts)
+//@   assigns nothing
+//@   safety all
+
+//@ func (certPool *GenericCertPool) ByIssuerCountry
+//@   props C20
+//@   requires certPool != nil
+//@   ensures "result-is-a-copy": result == nil || fresh(result)
+//@   loop 1 invariant matchingCerts == nil || fresh(matchingCerts)
+//@   assigns nothing
+//@   safety all
+
+// (*GenericCertPool).ByIssuerAndSerial is not under contract: it compares big integers filled in by encoding/asn1, whose
+// non-nilness the model of asn1.Unmarshal does not provide.
+
+// a combined pool forwards to its members (any CertPool; the interface contracts above are read-only)
+//@ func (cp *CombinedCertPool) BySKI
+//@   props C20
+//@   requires cp != nil && (forall i :: 0 <= i && i < len(cp.certPools) ==> cp.certPools[i] != nil)
+//@   ensures "result-is-a-copy": result == nil || fresh(result)
+//@   loop 1 invariant out == nil || fresh(out)
+//@   assigns nothing
+//@   safety all
+//@ func (cp *CombinedCertPool) ByIssuerCountry
+//@   props C20
+//@   requires cp != nil && (forall i :: 0 <= i && i < len(cp.certPools) ==> cp.certPools[i] != nil)
+//@   ensures "result-is-a-copy": result == nil || fresh(result)
+//@   loop 1 invariant out == nil || fresh(out)
+//@   assigns nothing
+//@   safety all
